@@ -205,3 +205,164 @@ def c07_sockets(ctx):
         if evil:
             ctx.violation("C07:delivered-from-unfinished-handshake:%s" % backend, "recv() returned %s from a peer that never finished the handshake" % evil[0].get("mid"), replay)
     ctx.extra["socket_level_handshake_scenarios"] = len(scs)
+
+
+# ---- Delivery oracle (Trace_Delivery.tla) ----------------------------------------
+def history_to_delivery_trace(result, senders, receivers, frame_of=None):
+    """Turn a recorded history into Delivery events. `senders`: socket names whose send calls are
+    offers; `receivers`: socket names whose recv results are deliveries. Message ids are
+    '<sender-tag>:<k>' (send_n) - the sender tag identifies the sending socket."""
+    ev = []
+    sender_of = {}
+    for r in result["records"]:
+        op = r.get("op")
+        if r.get("ev") == "call" and op in ("send", "send_mp") and r.get("sock") in senders:
+            tag, _, k = r["mid"].rpartition(":")
+            sender_of[tag] = r["sock"]
+            ev.append({"e": "offer", "s": tag, "k": int(k)})
+        elif r.get("ev") == "ret" and op in ("send", "send_mp") and r.get("sock") in senders:
+            tag, _, k = r["mid"].rpartition(":")
+            ev.append({"e": "ok" if r["res"] == "ok" else "refuse", "s": tag, "k": int(k)})
+        elif r.get("ev") == "ret" and op in ("recv", "recv_mp") and r.get("sock") in receivers and r.get("res") == "ok":
+            if op == "recv":
+                mid, intact = r.get("mid", "?"), bool(r.get("intact"))
+            else:
+                # multipart: identity / delimiter frames first, the payload frames carry '<mid>.<i>'
+                ids = [i for i in r.get("ids", []) if not i.startswith("?") and i != ""]
+                intact = bool(r.get("intact")) or all(x.startswith("?") or x == "" for x in r.get("ids", [])[:1])
+                mid = ids[0].rsplit(".", 1)[0] if ids else "?"
+                want = [mid + ".%d" % (j + 1) for j in range(len(ids))]
+                if ids != want:
+                    intact = False
+                intact = intact and bool(r.get("intact_payload", True))
+            tag, _, k = mid.rpartition(":")
+            try:
+                kk = int(k)
+            except ValueError:
+                tag, kk = "?", 0
+            ev.append({"e": "deliver", "r": r["sock"], "s": tag, "k": kk, "intact": bool(intact)})
+    ev.append({"e": "quiesce"})
+    return ev
+
+
+def validate_delivery(ctx, runs, tag, fanout=False):
+    """runs: list of (label, events, replay_obj). One TLC run over all of them (reset records in
+    between); on rejection the offending run is located and validated alone for the message.
+    Returns list of (label, detail, replay_obj) for rejected runs."""
+    rejected = []
+    pending = list(runs)
+    guard = 0
+    while pending and guard < 12:
+        guard += 1
+        path = os.path.join(ctx.work, "dtrace_%s_%d.ndjson" % (tag, guard))
+        offsets = []
+        with open(path, "w") as f:
+            n = 0
+            for (label, events, rp) in pending:
+                offsets.append(n)
+                for e in events:
+                    f.write(json.dumps(e) + "\n")
+                    n += 1
+                f.write(json.dumps({"e": "reset"}) + "\n")
+                n += 1
+        res = ctx.trace_check("Trace_Delivery", "Trace_Delivery_fanout.cfg" if fanout else "Trace_Delivery.cfg", path)
+        ctx.extra["delivery_events_validated"] = ctx.extra.get("delivery_events_validated", 0) + max(res.generated - 1, 0)
+        if not res.rejected:
+            break
+        matched = res.rejected[0][1]
+        # which run contains record number matched+1 ?
+        idx = max(i for i, off in enumerate(offsets) if off <= matched)
+        label, events, rp = pending[idx]
+        bad = events[matched - offsets[idx]] if matched - offsets[idx] < len(events) else {"e": "?"}
+        rejected.append((label, bad, rp))
+        pending = pending[idx + 1:]
+    return rejected
+
+
+def describe_rejection(bad):
+    if bad.get("e") == "quiesce":
+        return "accepted message(s) never delivered although the connection stayed up and the receiver drained its socket"
+    if bad.get("e") == "deliver":
+        if not bad.get("intact", True):
+            return "message %s:%s delivered corrupted / with wrong frames" % (bad.get("s"), bad.get("k"))
+        return "delivery of %s:%s at %s is a duplicate, out of order, or of a message nobody sent" % (bad.get("s"), bad.get("k"), bad.get("r"))
+    return "history record rejected: %s" % json.dumps(bad)
+
+
+def rejection_code(bad):
+    if bad.get("e") == "quiesce":
+        return "lost"
+    if bad.get("e") == "deliver":
+        return "corrupt" if not bad.get("intact", True) else "dup-or-reorder"
+    return "other"
+
+
+# ---- generic delivery workloads (C01, C14, C20) -----------------------------------
+_ipc_counter = [0]
+
+
+def endpoint(transport, name):
+    if transport == "tcp":
+        return "tcp://127.0.0.1:0"
+    if transport == "ipc":
+        _ipc_counter[0] += 1
+        return "ipc:///tmp/rzmq_verif_%d_%s_%d" % (os.getpid(), name, _ipc_counter[0])
+    _ipc_counter[0] += 1
+    return "inproc://verif_%s_%d" % (name, _ipc_counter[0])
+
+
+def push_pull(name, transport="tcp", n=200, sizes=(64,), tx_opts=(), rx_opts=(), rx_pace_us=0, flavor="multi",
+              when="mid", uring=False, deadline_ms=40000):
+    ep = endpoint(transport, name)
+    rx_ops = []
+    tx_ops = []
+    if when == "before" and transport == "ipc":
+        # connect first; the listener appears later (connection established by a retry)
+        tx_ops += [{"op": "connect", "sock": "tx", "ep": ep}, {"op": "barrier", "name": "go", "parties": 2}]
+        rx_ops += [{"op": "barrier", "name": "go", "parties": 2}, {"op": "sleep", "ms": 150}, {"op": "bind", "sock": "rx", "ep": ep, "save": "ep"}]
+    else:
+        rx_ops += [{"op": "bind", "sock": "rx", "ep": ep, "save": "ep"}, {"op": "barrier", "name": "go", "parties": 2}]
+        tx_ops += [{"op": "barrier", "name": "go", "parties": 2}, {"op": "connect", "sock": "tx", "ep": "$ep"}]
+        if when == "after":
+            tx_ops.append({"op": "sleep", "ms": 250})
+    tx_ops.append({"op": "send_n", "sock": "tx", "prefix": "a", "n": n, "sizes": list(sizes), "timeout_ms": 20000, "stop_on_err": True})
+    rx_ops.append({"op": "recv_n", "sock": "rx", "n": n, "timeout_ms": 5000, "pace_us": rx_pace_us})
+    rx_ops.append({"op": "recv", "sock": "rx", "timeout_ms": 200})   # nothing extra may arrive
+    to = list(tx_opts) + ([i32(IO_URING_SESSION_ENABLED, 1)] if uring else [])
+    ro = list(rx_opts) + ([i32(IO_URING_SESSION_ENABLED, 1)] if uring else [])
+    return {"name": name, "flavor": flavor, "uring": uring, "deadline_ms": deadline_ms,
+            "sockets": [{"name": "tx", "type": "PUSH", "opts": to}, {"name": "rx", "type": "PULL", "opts": ro}],
+            "tasks": [{"name": "rx", "ops": rx_ops}, {"name": "tx", "ops": tx_ops}]}
+
+
+def dealer_router(name, transport="tcp", n=50, sizes=(64,), tx_opts=(), rx_opts=(), when="mid", uring=False):
+    ep = endpoint(transport, name)
+    rx_ops = [{"op": "bind", "sock": "rx", "ep": ep, "save": "ep"}, {"op": "barrier", "name": "go", "parties": 2},
+              {"op": "recv_n", "sock": "rx", "n": n, "timeout_ms": 4000, "multipart": True},
+              {"op": "recv_mp", "sock": "rx", "timeout_ms": 200}]
+    tx_ops = [{"op": "barrier", "name": "go", "parties": 2}, {"op": "connect", "sock": "tx", "ep": "$ep"}]
+    if when == "after":
+        tx_ops.append({"op": "sleep", "ms": 250})
+    for k in range(1, n + 1):
+        tx_ops.append({"op": "send_mp", "sock": "tx", "mid": "d:%d" % k, "sizes": [sizes[(k - 1) % len(sizes)]], "timeout_ms": 10000})
+    to = list(tx_opts) + [[ROUTING_ID, "str", "dealer-1"]] + ([i32(IO_URING_SESSION_ENABLED, 1)] if uring else [])
+    ro = list(rx_opts) + ([i32(IO_URING_SESSION_ENABLED, 1)] if uring else [])
+    return {"name": name, "uring": uring, "deadline_ms": 40000,
+            "sockets": [{"name": "tx", "type": "DEALER", "opts": to}, {"name": "rx", "type": "ROUTER", "opts": ro}],
+            "tasks": [{"name": "rx", "ops": rx_ops}, {"name": "tx", "ops": tx_ops}]}
+
+
+def req_rep(name, transport="tcp", n=30, sizes=(64,), uring=False):
+    ep = endpoint(transport, name)
+    rep_ops = [{"op": "bind", "sock": "rep", "ep": ep, "save": "ep"}, {"op": "barrier", "name": "go", "parties": 2}]
+    req_ops = [{"op": "barrier", "name": "go", "parties": 2}, {"op": "connect", "sock": "req", "ep": "$ep"}]
+    for k in range(1, n + 1):
+        sz = sizes[(k - 1) % len(sizes)]
+        req_ops += [{"op": "send", "sock": "req", "mid": "q:%d" % k, "size": sz, "timeout_ms": 8000},
+                    {"op": "recv", "sock": "req", "timeout_ms": 8000}]
+        rep_ops += [{"op": "recv", "sock": "rep", "timeout_ms": 8000},
+                    {"op": "send", "sock": "rep", "mid": "p:%d" % k, "size": sz, "timeout_ms": 8000}]
+    o_ = [i32(IO_URING_SESSION_ENABLED, 1)] if uring else []
+    return {"name": name, "uring": uring, "deadline_ms": 60000,
+            "sockets": [{"name": "req", "type": "REQ", "opts": o_}, {"name": "rep", "type": "REP", "opts": o_}],
+            "tasks": [{"name": "rep", "ops": rep_ops}, {"name": "req", "ops": req_ops}]}
